@@ -19,6 +19,8 @@
 #include <sstream>
 
 #include <votca/csg/csgapplication.h>
+#include <votca/csg/interaction.h>
+#include <votca/csg/molecule.h>
 #include <votca/csg/topologyreader.h>
 #include <votca/csg/trajectoryreader.h>
 
@@ -40,6 +42,8 @@ struct Shared {
   std::vector<std::pair<long, long>> evalLog;   // (worker, relative frame)
   std::vector<long> mergeLog;
   std::vector<long> evalAbs;
+  long topo_fp = -1;
+  bool topo_differs = false;
 };
 static Shared G;
 
@@ -49,7 +53,19 @@ class VTopReader : public TopologyReader {
     top.Cleanup();
     top.CreateResidue("R");
     top.RegisterBeadType("A");
-    top.CreateBead(Bead::spherical, "a", "A", 0, 1.0, 0.0);
+    Bead *b0 = top.CreateBead(Bead::spherical, "a", "A", 0, 1.0, 0.0);
+    Bead *b1 = top.CreateBead(Bead::spherical, "b", "A", 0, 1.0, 0.0);
+    Molecule *mol = top.CreateMolecule("M");
+    mol->AddBead(b0, "a");
+    mol->AddBead(b1, "b");
+    // one bond, so that every worker's topology must carry bonded interactions and exclusions
+    IBond *ib = new IBond(0, 1);
+    ib->setGroup("bond");
+    ib->setIndex(0);
+    ib->setMolecule(0);
+    top.AddBondedInteraction(ib);
+    mol->AddInteraction(ib);
+    top.RebuildExclusions();
     top.setStep(0);
     return true;
   }
@@ -103,6 +119,11 @@ class App : public CsgApplication {
       frame = top->getStep() - G.base;
       G.evalLog.emplace_back(getId(), frame);
       G.evalAbs.push_back(top->getStep());
+      // every worker must analyse the frame on an equivalent topology (same beads, bonded interactions, exclusions)
+      long fp = top->BeadCount() * 10000 + long(top->BondedInteractions().size()) * 100 +
+                (top->BeadCount() >= 2 && top->getExclusions().IsExcluded(top->getBead(0), top->getBead(1)) ? 1 : 0);
+      if (G.topo_fp == -1) G.topo_fp = fp;
+      if (fp != G.topo_fp) G.topo_differs = true;
     }
   };
   std::unique_ptr<Worker> ForkWorker() override { return std::make_unique<W>(); }
@@ -225,6 +246,7 @@ struct RunResult {
   int max_rdr = 0, max_merge = 0;
   std::string error;
   std::vector<long> evalAbs;
+  bool topo_differs = false;
 };
 
 static void print_run(const struct RunResult &r, std::ostream &out, bool with_steps);
@@ -308,6 +330,7 @@ static RunResult collect(int rc, const std::string &err) {
   r.max_rdr = G.max_in_reader;
   r.max_merge = G.max_in_merge;
   r.evalAbs = G.evalAbs;
+  r.topo_differs = G.topo_differs;
   return r;
 }
 
@@ -324,7 +347,7 @@ static void print_run(const RunResult &r, std::ostream &out, bool with_steps) {
     if (ch == '"' || ch == '\n' || ch == '\\') ch = ' ';
   out << "{\"e\":\"end\",\"rc\":" << r.rc << ",\"deadlock\":" << (r.deadlock ? "true" : "false")
       << ",\"mismatch\":" << (r.mismatch ? "true" : "false") << ",\"bad_unlock\":" << (r.bad ? "true" : "false")
-      << ",\"max_in_reader\":" << r.max_rdr << ",\"max_in_merge\":" << r.max_merge << ",\"steps\":" << r.steps.size()
+      << ",\"max_in_reader\":" << r.max_rdr << ",\"max_in_merge\":" << r.max_merge << ",\"topo_differs\":" << (r.topo_differs ? "true" : "false") << ",\"steps\":" << r.steps.size()
       << ",\"evalAbs\":[";
   for (size_t i = 0; i < r.evalAbs.size(); ++i) out << (i ? "," : "") << r.evalAbs[i];
   out << "],\"error\":\"" << err << "\"}" << std::endl;
